@@ -200,6 +200,9 @@ static void body_sizeof(void) {
     if (vx_want_sample()) vx_sample("kind %d %s: peak %ld bytes held", kind, hist, g_peak);
 }
 
+#include <malloc.h>
+/* bytes currently obtained from the process heap (arena + mmap'd chunks): a static object must not change it */
+static size_t heap_in_use(void) { struct mallinfo2 m = mallinfo2(); return (size_t)m.uordblks + (size_t)m.hblkhd; }
 static void body_dicts(void) {
     /* static CDict / DDict of exactly the estimated size, dictionaries of the catalogue records + raw ones */
     int idx = vx_choose(g_nrec > 400 ? 400 : g_nrec) * (g_nrec > 400 ? g_nrec / 400 : 1); const rec_t* r = &g_rec[idx];
@@ -209,14 +212,20 @@ static void body_dicts(void) {
     ZSTD_compressionParameters cp = ZSTD_getCParams(lvl, 0, r->dlen);
     size_t ce = ZSTD_estimateCDictSize_advanced(r->dlen, cp, byRef ? ZSTD_dlm_byRef : ZSTD_dlm_byCopy);
     guarded_t g; if (guarded_alloc(&g, ce, abut)) return;
+    int fill = vx_choose(2); if (fill) memset(g.block, 0xA7, ce);      /* the caller's memory need not be zeroed */
+    size_t heap0 = heap_in_use();
     const ZSTD_CDict* cd = ZSTD_initStaticCDict(g.block, ce, r->dict, r->dlen, byRef ? ZSTD_dlm_byRef : ZSTD_dlm_byCopy, ZSTD_dct_auto, cp);
+    if (heap_in_use() != heap0) vx_fail("ZSTD_initStaticCDict took %ld bytes from the heap", (long)(heap_in_use() - heap0));
     if (cd) {
         ZSTD_CCtx* c = ZSTD_createCCtx(); size_t cs = ZSTD_compress_usingCDict(c, g_dst, 1u << 20, r->content, r->clen > 60000 ? 60000 : r->clen, cd); ZSTD_freeCCtx(c);
         if (ZSTD_isError(cs)) vx_fail("compress_usingCDict with a static CDict fails: %s", ZSTD_getErrorName(cs));
         else {
             size_t de = ZSTD_estimateDDictSize(r->dlen, byRef ? ZSTD_dlm_byRef : ZSTD_dlm_byCopy); guarded_t g2;
             if (!guarded_alloc(&g2, de, abut)) {
+                if (fill) memset(g2.block, 0xA7, de);
+                size_t heap1 = heap_in_use();
                 const ZSTD_DDict* dd = ZSTD_initStaticDDict(g2.block, de, r->dict, r->dlen, byRef ? ZSTD_dlm_byRef : ZSTD_dlm_byCopy, ZSTD_dct_auto);
+                if (heap_in_use() != heap1) vx_fail("ZSTD_initStaticDDict took %ld bytes from the heap (load method %s)", (long)(heap_in_use() - heap1), byRef ? "byRef" : "byCopy");
                 if (!dd) vx_fail("initStaticDDict rejects a block of estimateDDictSize = %zu for a dictionary the compressor loaded", de);
                 else { ZSTD_DCtx* d = ZSTD_createDCtx(); size_t n = r->clen > 60000 ? 60000 : r->clen; size_t ds = ZSTD_decompress_usingDDict(d, g_out, SRCMAX, g_dst, cs, dd); ZSTD_freeDCtx(d);
                        if (ZSTD_isError(ds) || ds != n || memcmp(g_out, r->content, n)) vx_fail("static CDict / DDict round trip fails"); }
